@@ -51,6 +51,23 @@ class Tx:
         segs.append("S%.3f" % self.tail)
         return segs
 
+    def burst_end_samples(self):
+        """end sample (count of samples up to and including the burst) of each present burst i in 0..5,
+        replicating the synthesiser's rounding: segments = [lead, b0, g0, b1, g1, b2, g_ht, b3, g3, b4, g4, b5, tail]"""
+        import math
+        tsym = 1.0 / (520.83 * (1.0 + self.baud))
+        pos, ends, i = 0, {}, 0
+        for k, seg in enumerate(self.segments()):
+            if seg[0] == "S":
+                pos += int(round(float(seg[1:]) * self.rate))
+            else:
+                nbits = (len(seg) - 1) // 2 * 8
+                pos += int(math.ceil(nbits * tsym * self.rate - self.frac - 1e-9))
+            if k >= 1 and k % 2 == 1 and k <= 11:
+                if seg[0] == "B":
+                    ends[(k - 1) // 2] = pos
+        return ends
+
     def line(self, extra="", script=None):
         p = "rxaudio rate=%d amp=%g dc=%g phase=%g frac=%g baud=%g seed=%d" % (
             self.rate, self.amp, self.dc, self.phase, self.frac, self.baud, self.seed)
